@@ -29,6 +29,23 @@ def run(ctx, which="cauchy"):
         recs = lattice.enumerate_lattice(ctx, n, mems, shards=(1 if n == 1 else 16 if n == 2 else 24), sub=sub)
         res = lattice.replay(recs, which)
         total += len(recs)
+        # knife edges (stationary point of a segment exactly on its end breakpoint): a single flip can be a
+        # rounding matter, so both answers are accepted input by input - but on these lattices the exact data
+        # make the code follow the definition on every such input; a systematic preference for stopping at
+        # the kink (>= 10 inputs and >= 1 % of the knife-edge inputs) is not rounding
+        if which == "cauchy":
+            n_edge = sum(1 for r in recs if r["knife"])
+            flips = [(r, d) for r, (v, d) in zip(recs, res) if v == "knife"]
+            ctx.cov.setdefault("knife_edge_inputs", 0)
+            ctx.cov.setdefault("knife_edge_flips", 0)
+            ctx.cov["knife_edge_inputs"] += n_edge
+            ctx.cov["knife_edge_flips"] += len(flips)
+            if len(flips) >= 10 and len(flips) >= 0.01 * n_edge:
+                for r, d in flips[:5]:
+                    ctx.violation("C08_StopsAtStationaryKink",
+                                  {"kind": "lattice-cauchy", "verdict": "knife-systematic", "input": lattice.slim(r), "observed": d,
+                                   "flips": len(flips), "knife_edge_inputs": n_edge,
+                                   "summary": f"{len(flips)} of {n_edge} knife-edge inputs stop at the kink although the model still decreases beyond it; e.g. n={r['n']} mem={r['mem']} x={r['x']} g={r['g']}"})
         for rec, (v, det) in zip(recs, res):
             verdicts[v] = verdicts.get(v, 0) + 1
             if any(p for p in rec["pin"]) or rec["free"]:
